@@ -473,7 +473,9 @@ func c08RandomConn(rng *h.Rand, maxLen int) srvConn {
 			cs.Steps = append(cs.Steps, srvStep{Op: "settle", Arg: 1})
 		default:
 			if slowPending {
-				cs.Steps = append(cs.Steps, srvStep{Op: "settle", Arg: 1})
+				// a gated handler would keep every later read waiting
+				cs.Steps = append(cs.Steps, srvStep{Op: "settle", Arg: 1}, srvStep{Op: "release"})
+				slowPending = false
 			}
 			cs.Steps = append(cs.Steps, srvStep{Op: "half"})
 			for outstanding > 0 && rng.Chance(2, 3) {
